@@ -137,6 +137,10 @@ def mul(a, b):
 
 def add(a, b, sign):
     va, vb = as_val(a), as_val(b)
+    if va is None and vb is not None and mach.is_num(a) and simp(a) == 0:
+        return Val(vb.rows, vb.cols, {k: simp(rf(Fraction(sign)) * rf(v)) for k, v in vb.c.items()})
+    if vb is None and va is not None and mach.is_num(b) and simp(b) == 0:
+        return va
     if va is None or vb is None:
         raise Unab("sum of %s and %s" % (show_val(a), show_val(b)))
     if (va.rows, va.cols) != (vb.rows, vb.cols):
@@ -425,6 +429,12 @@ class DfMachine(Machine):
     def parse_cond(self, t):
         """`(No == -1 || Nx == -1) ? -1 : No * Nx` and plain integer expressions in Eigen::Matrix<...> extents"""
         t = t.strip()
+        if t.startswith("(") and t.endswith(")") and t.count("(") == 1:
+            t = t[1:-1]
+        m = re.match(r"^(\w+)>(-?\d+)\?(.*):(.*)$", t)
+        if m:
+            test = ("op", ">", ("ref", m.group(1), None), ("num", Fraction(int(m.group(2)))))
+            return ("cond", test, self.parse_targ(m.group(3)), self.parse_targ(m.group(4)))
         m = re.match(r"^\((.*)\)\?(.*):(.*)$", t)
         if m:
             conds = [c.strip() for c in m.group(1).split("||")]
@@ -560,3 +570,114 @@ def check(rep, tier="quick"):
                 rep.instance("DF.exec", "d2_fog", inst, ok=bad is None, sample={})
                 if bad:
                     rep.violation(Finding("DF.exec", "d2_fog", "%s%s" % (kind, ", sparse Jf" if sparse else ""), "%s: %s" % (inst, bad), *A.loc(d.node)))
+
+
+# ---- T1.dyn: Eigen vectors as translation groups, fixed and dynamic size --------------------------------------------------------
+
+class RnMachine(DfMachine):
+    def __init__(self, decls, g, dofc):
+        super().__init__(decls, {"G": g})
+        self.global_env.bind("Dof", Cell(Fraction(dofc), True))
+        f = self.funcs
+        for nm, fn in (("Zero", lambda r, c: Fraction(0)), ("Identity", lambda r, c: Fraction(1 if r == c else 0))):
+            f[nm] = PyFunc(lambda M, args, env, name, fn=fn: self.const(args, env, name, fn), lazy=True)
+
+    def const(self, args, env, name, fn):
+        t = (name or "").replace(" ", "")
+        m = re.match(r"^(?:Eigen::)?Matrix<\w+,(.*)>::(\w+)$", t)
+        vals = [int(simp(self.rv(self.ev(a, env)))) for a in args]
+        if m:
+            parts = _split(m.group(1))
+            sr, sc = (int(simp(self.rv(self.ev(self.parse_cond(p), env)))) for p in parts[:2])
+        elif re.match(r"^(G|PlainObject)::\w+$", t):
+            sr, sc = int(simp(self.rv(self.ev(("ref", "Dof", None), env)))), 1
+            vals = vals + [1] if len(vals) == 1 else vals
+        else:
+            raise Unab("constant matrix %s" % name)
+        if len(vals) == 0:
+            if -1 in (sr, sc):
+                raise AbstractViolation("%s without run-time sizes for a dynamic-size type" % name)
+            r, c = sr, sc
+        elif len(vals) == 2:
+            r, c = vals
+            if (sr != -1 and sr != r) or (sc != -1 and sc != c):
+                raise AbstractViolation("%s: run-time size %d x %d for the compile-time size %s x %s (Eigen asserts; ignored with NDEBUG)" % (name, r, c, sr, sc))
+        else:
+            raise Unab("constant matrix %s with %d arguments" % (name, len(vals)))
+        return Val(r, c, {(i, j): fn(i, j) for i in range(r) for j in range(c)})
+
+
+def _neg(M, v):
+    x = as_val(v)
+    if x is None:
+        raise Unab("negation of %s" % show_val(v))
+    return Val(x.rows, x.cols, {k: simp(rf(Fraction(0)) - rf(c)) for k, c in x.c.items()})
+
+
+Val.op_neg = lambda self, M, a: _neg(M, a)
+MView.op_neg = lambda self, M, a: _neg(M, a)
+
+
+def check_rn(rep):
+    """T1.dyn: traits::lie<RnType> (Eigen vectors as the translation group), abstractly executed for a fixed-size and a dynamic-size vector: values and *shapes* of every member"""
+    rep.rule("T1.dyn", "Eigen vectors as translation groups, abstractly executed for fixed and dynamic size: Identity = 0, composition = sum, inverse = negation, exp = log = identity map, "
+             "Ad / dr_exp / dr_expinv = I (n x n), ad = 0 (n x n), d2r_exp / d2r_expinv = 0 (n x n^2)", minimum=20)
+    decls = {}
+    for x in A.index(fe.ast_dump("traits::lie")):
+        if x.pattern and x.kind in A.FUNCS and A.body(x.node) is not None and x.file and x.file.endswith("lie_groups/rn.hpp"):
+            nm = x.qname.split("::")[-1]
+            if all((y.file, y.line) != (x.file, x.line) for y in decls.get(nm, [])):
+                decls.setdefault(nm, []).append(x)
+    if len(decls) < 10:
+        rep.broke("T1.dyn: %d members of traits::lie<RnType> found in lie_groups/rn.hpp" % len(decls))
+        return
+    n = 3
+    eye = {(i, j): Fraction(1 if i == j else 0) for i in range(n) for j in range(n)}
+    zero = lambda r, c: {(i, j): Fraction(0) for i in range(r) for j in range(c)}
+    for kind, dofc in (("fixed size", n), ("dynamic size", -1)):
+        g1 = grid("g", n, 1, dofc, 1)
+        g2 = grid("h", n, 1, dofc, 1)
+        gc = {k: v for k, v in g1.c.items()}
+        want = {
+            "Identity": ([Cell(Fraction(n))], (n, 1, zero(n, 1))),
+            "Ad": ([Cell(g1)], (n, n, eye)), "ad": ([Cell(g1)], (n, n, zero(n, n))),
+            "composition": ([Cell(g1), Cell(g2)], (n, 1, {k: simp(rf(g1.c[k]) + rf(g2.c[k])) for k in g1.c})),
+            "inverse": ([Cell(g1)], (n, 1, {k: simp(rf(Fraction(0)) - rf(v)) for k, v in g1.c.items()})),
+            "log": ([Cell(g1)], (n, 1, gc)), "exp": ([Cell(g1)], (n, 1, gc)),
+            "dr_exp": ([Cell(g1)], (n, n, eye)), "dr_expinv": ([Cell(g1)], (n, n, eye)),
+            "d2r_exp": ([Cell(g1)], (n, n * n, zero(n, n * n))), "d2r_expinv": ([Cell(g1)], (n, n * n, zero(n, n * n))),
+            "dof": ([Cell(g1)], Fraction(n)),
+        }
+        for nm, (args, exp_) in want.items():
+            ds = decls.get(nm, [])
+            inst = "%s, %s" % (nm, kind)
+            if len(ds) != 1:
+                rep.broke("T1.dyn: traits::lie<RnType>::%s not found (%d)" % (nm, len(ds)))
+                continue
+            M = RnMachine(decls, g1, dofc)
+            bad = None
+            try:
+                r = M.rv(M.run_function(ds[0], args))
+                if isinstance(exp_, Fraction):
+                    if simp(r) != exp_:
+                        bad = "returns %s; expected %s" % (show_val(r), exp_)
+                else:
+                    v = as_val(r)
+                    rows, cols, cells = exp_
+                    if v is None:
+                        bad = "returns %s; expected a %d x %d matrix" % (show_val(r), rows, cols)
+                    elif (v.rows, v.cols) != (rows, cols):
+                        bad = "returns a %d x %d matrix; expected %d x %d" % (v.rows, v.cols, rows, cols)
+                    else:
+                        for k in cells:
+                            if v.c[k] is mach.UNSET or not mach.num_equal(v.c[k], cells[k]):
+                                bad = "entry %s is %s; expected %s" % (k, show_val(v.c[k]), show_val(cells[k]))
+                                break
+            except AbstractViolation as ex:
+                bad = str(ex)
+            except Unab as ex:
+                rep.broke("T1.dyn: %s is outside the abstract machine: %s" % (inst, ex))
+                continue
+            rep.instance("T1.dyn", "traits::lie<RnType>::" + nm, kind, ok=bad is None, sample={})
+            if bad:
+                rep.violation(Finding("T1.dyn", "traits::lie<RnType>::" + nm, kind, "traits::lie<Eigen vector>::%s (%s, n = %d): %s" % (nm, kind, n, bad), *A.loc(ds[0].node)))
